@@ -121,9 +121,9 @@ type Parser struct {
 	// How deeply nested is the expression we're parsing?
 	depth int
 
-	// chain counts the operators applied so far by the expressions
-	// we are in the middle of parsing.
-	chain int
+	// deepest is the depth of the deepest tree which parseExpression
+	// has returned since this field was last reset.
+	deepest int
 }
 
 // maxDepth is the deepest nesting of expressions and blocks we accept.
@@ -133,15 +133,16 @@ type Parser struct {
 // the host-application instead of being reported as an error.
 const maxDepth = 1000
 
-// maxChain is the longest chain of operators we accept.
+// maxTreeDepth is the deepest syntax-tree we accept for one expression.
 //
 // A chain such as "a + b + c + .." is parsed by a loop, not recursively,
 // but the tree it produces is as deep as the chain is long, and that
 // tree is walked recursively afterwards (by the compiler, and when it
-// is printed): a pathologically long chain would exhaust the stack of
-// the host-application there.  Every operator costs at least two bytes
-// of bytecode, so a longer chain could not fit our 64k limit anyway.
-const maxChain = 32768
+// is printed): a pathologically long chain - or long chains inside the
+// operands of long chains - would exhaust the stack of the
+// host-application there.  Every operator costs at least two bytes
+// of bytecode, so a deeper tree could not fit our 64k limit anyway.
+const maxTreeDepth = 32768
 
 // New returns a new parser.
 //
@@ -339,11 +340,19 @@ func (p *Parser) parseExpressionStatement() *ast.ExpressionStatement {
 func (p *Parser) parseExpression(precedence int) ast.Expression {
 
 	// Keep track of how deeply nested we are.
-	links := 0
+	// .. and of how deep the tree is which we build: every expression
+	// inside the one we parse comes through here too, and leaves its
+	// depth behind in p.deepest.
+	outer := p.deepest
+	height := 0
+	p.deepest = 0
 	p.depth++
 	defer func() {
 		p.depth--
-		p.chain -= links
+		p.deepest = outer
+		if height > outer {
+			p.deepest = height
+		}
 	}()
 	if p.depth > maxDepth {
 		msg := fmt.Sprintf("expression nested too deeply around %s", p.curToken.Position())
@@ -363,10 +372,16 @@ func (p *Parser) parseExpression(precedence int) ast.Expression {
 		return nil
 	}
 	leftExp := prefix()
+	height = p.deepest + 1
 
 	// Look for errors
 	if leftExp == nil {
 		msg := fmt.Sprintf("unexpected nil expression around %s", p.curToken.Position())
+		p.errors = append(p.errors, msg)
+		return nil
+	}
+	if height > maxTreeDepth {
+		msg := fmt.Sprintf("too many operators in one expression around %s", p.curToken.Position())
 		p.errors = append(p.errors, msg)
 		return nil
 	}
@@ -378,18 +393,20 @@ func (p *Parser) parseExpression(precedence int) ast.Expression {
 			p.errors = append(p.errors, msg)
 			return leftExp
 		}
+		p.nextToken()
+		p.deepest = 0
+		leftExp = infix(leftExp)
 
-		// Each operator makes the tree one level deeper.
-		links++
-		p.chain++
-		if p.chain > maxChain {
+		// Each operator puts one more level on top of its operands.
+		if p.deepest > height {
+			height = p.deepest
+		}
+		height++
+		if height > maxTreeDepth {
 			msg := fmt.Sprintf("too many operators in one expression around %s", p.curToken.Position())
 			p.errors = append(p.errors, msg)
 			return nil
 		}
-
-		p.nextToken()
-		leftExp = infix(leftExp)
 
 		// Look for errors
 		if leftExp == nil {
